@@ -18,15 +18,15 @@ def add(pid, engine, technique, text, note, ref):
     })
 
 add("C17", "enum", "bounded-exhaustive enumeration of pattern lists x paths vs reference matcher",
-    "Every glob pattern of <=3 (quick) / <=4 (thorough) tokens over a 12-token alphabet and every ordered list of 0-3 patterns from a 60-pattern pool is compiled by the real CompileGlobs and matched against every path up to length 5/4 over a 6-letter alphabet; each answer is compared with an independent recursive matcher. Exhaustive inside those bounds.",
+    "Every glob pattern of <=3 (quick) / <=4 (thorough) tokens over a 12-token alphabet and every ordered list of 0-3 patterns from a 60-pattern pool is compiled by the real CompileGlobs and matched against every path up to length 5/4 over a 6-letter alphabet; each answer is compared with an independent recursive (rune-aware) matcher; a non-ASCII family repeats this over multi-byte runes. Exhaustive inside those bounds.",
     "Trusts the reference matcher (35 lines) and Go's regexp; unescaped brackets are outside the stated semantics. The real consumers are driven too: glob() and os.glob() with every include list of 1-2 and exclude list of 0-1 (0-2) patterns of a 20-pattern pool on a generated tree, and dawn.toml ignore lists deciding which packages load, each compared with the reference over the whole tree.", "DESIGN.md section 5 C17")
 
 SCHED_NOTE = "Trusts the vsched shim's model of sync.Mutex/RWMutex/Cond/WaitGroup/sync.Map/atomic (sequential consistency, no spurious wake-ups, Signal wakes any waiter), fair scheduling for termination, and data-race freedom of the instrumented files (free-running -race pass in the thorough tier). The code explored is the real file from /repo's working tree with only its sync imports and go statements redirected."
 add("C04", "vsched", "stateless exploration of all thread interleavings of the real runner up to a preemption bound (HB-pruned), monitor oracle",
     "runner.Run is executed on every DAG with <=4 nodes x node behaviours (ok/failing/unknown, <=2 non-ok) x limits 1-3 (and split dependency requests); every interleaving with <=2 preemptions (quick; 1 for 4-node graphs) / <=3 and unbounded for <=3 nodes (thorough) is run to completion and a monitor checks at-most-once load/evaluate, dependencies finished before continuing, outcomes handed through exactly, Run's result = root's outcome.",
-    SCHED_NOTE, "DESIGN.md section 5 C04")
+    SCHED_NOTE + " Further pass (hist engine, -prop C04): every real project build of the history search (partial builds, whole-project builds, a dependency listed under two spellings) is monitored for at-most-once execution and execution after dependencies. Free-running -race pass of the same scenario bodies in both tiers.", "DESIGN.md section 5 C04")
 add("C05", "vsched", "stateless exploration of all thread interleavings of the real runner up to a preemption bound, deadlock/livelock detection under fair scheduling",
-    "runner.Run on all directed graphs (self-loops included) on <=3 nodes plus selected 4-node graphs x limits 1-3; every interleaving within the preemption bound; oracle: no deadlock, no livelock, cycle reachable => error + CyclicDependencyError handed out, acyclic => none.",
+    "runner.Run on all directed graphs (self-loops included) on <=3 nodes plus selected 4-node graphs x limits 1-3, plus a 4-wide fan at limit 2 (two sleepers at the gate); every interleaving within the preemption bound; oracle: no deadlock, no livelock, cycle reachable => error + CyclicDependencyError handed out, acyclic => none.",
     SCHED_NOTE, "DESIGN.md section 5 C05")
 add("C06", "vsched", "stateless exploration of all interleavings of the real dawn.Load (real Starlark) over generated load graphs, preemption-bounded with HB pruning",
     "dawn.Load runs on generated project trees realising a curated family of load graphs (shared helpers loading helpers, BUILD-loads-BUILD, self-loads, 2- and 3-cycles within and across loader goroutines, 2-4 packages) and all graphs with <=3 edges (2 packages) / <=2 edges (3 packages) up to symmetry in quick, <=3/<=4 in thorough; every interleaving of the loader goroutines within the preemption bound; oracle: each module executed at most once, no deadlock/livelock, acyclic => success with the expected targets and flags, cyclic => 'cyclic dependency' error.",
@@ -39,11 +39,11 @@ add("C20", "vsched", "exhaustive (unbounded) exploration of all interleavings of
     SCHED_NOTE, "DESIGN.md section 5 C20")
 
 add("C07", "enum", "bounded-exhaustive enumeration of values through the real encoder/decoder (and a batch-size-3 clone) vs a structural-isomorphism oracle",
-    "Every integer in [-70000,70000] (thorough: +-2^21) and around 2^31/2^32/2^63/2^64, float classes, strings/bytes at every length class x 6 content classes, all containers of 0-3 (thorough 0-4) elements over 12 leaves nested to depth 2 (3), batch boundaries flat/self-containing/nested at 15 host positions for the real batch size 1000 and for a build-time clone of the package with batch size 3, and all 4096 aliasing graphs over 3 mutable containers per kind combination are encoded and decoded by the real codec; the result must be isomorphic to the input in Go type, structure, contents and sharing of mutable containers.",
+    "Every integer in [-70000,70000] (thorough: +-2^21) and around 2^31/2^32/2^63/2^64, float classes, strings/bytes at every length class x 6 content classes, all containers of 0-3 (thorough 0-4) elements over 12 leaves nested to depth 2 (3), batch boundaries flat/self-containing/nested at 15 host positions for the real batch size 1000 and for a build-time clone of the package with batch size 3, all 4096 aliasing graphs over 3 mutable containers per kind combination, alias graphs through a re-entrant host pickler, and values with 255/256/257 and 65535/65536/65537 memoised objects referenced on both sides of the memo-id width boundary are encoded and decoded by the real codec; the result must be isomorphic to the input in Go type, structure, contents and sharing of mutable containers.",
     "Trusts the isomorphism oracle (90 lines). Sharing of tuples/scalars is unobservable in Starlark and not compared. The clone differs from /repo/pickle only in the literal 1000 -> 3 (vtool -clone).", "DESIGN.md section 5 C07")
 
 add("C12", "enum", "bounded-exhaustive enumeration of label strings and (package, path) pairs vs a component-stack reference",
-    "label.Parse on every string of length <=7 (quick) / <=8 (thorough) over {a,b,:,/,.,@}; for every accepted label with a name or without a kind: print/re-parse identity, global canonical-print table (equal prints <=> equal labels), the same after RelativeTo against three packages; repoSourcePath/sourceLabel on every path of length <=8 (<=10) over {a,/,.,:} against three packages compared with a component-stack resolver (accepted => resolves inside the root at the reference location; escaping => rejected). No panics anywhere.",
+    "label.Parse on every string of length <=7 (quick) / <=8 (thorough) over {a,b,:,/,.,@}; for every accepted label with a name or without a kind: print/re-parse identity, global canonical-print table (equal prints <=> equal labels), the same after RelativeTo against three packages; repoSourcePath/sourceLabel on every path of length <=8 (<=10) over {a,/,.,:} against three packages compared with a component-stack resolver (accepted => resolves inside the root at the reference location; escaping => rejected). The record path derived from every accepted label (targets and sources) must stay below the build-state directory and be injective over the whole enumerated set. No panics anywhere.",
     "Trusts the reference resolver and the field-wise label equality; lexical confinement only (symlinks out of scope, as in the code).", "DESIGN.md section 5 C12")
 add("C15", "enum", "bounded-exhaustive enumeration of byte strings and single-fault corruptions through the real decoder; fault enumeration over record files through Load/Run",
     "All byte strings of length <=3 over all 256 values (16.8M), all strings of length 4 (5) over 38 opcode/operand bytes, all opcode sequences of <=5 (6) operations over a 21-op core, and every truncation/deletion/substitution/insertion of six valid encodings (including two real function environments), each decoded with no unpickler and with dawn's environment unpickler: Decode must return, never panic, never return (nil,nil), and the value must be printable/hashable/freezable/comparable. Record-file corruptions through Load/Run are enumerated by the same harness.",
@@ -53,7 +53,7 @@ add("C19", "enum", "bounded-exhaustive enumeration of configurations, round-trip
     "Valid configurations only (canonical semver versions, clean paths), as the property quantifies.", "DESIGN.md section 5 C19")
 
 add("C16", "enum", "bounded-exhaustive enumeration of value pairs through the real Diff (and a route-limit-4 build), edit-script replay oracle",
-    "All ordered pairs of int sequences over {0,1,2} of length <=4 (5) as lists/tuples/mixed, binary lists to length 6 (8), strings and bytes over {a,b,c} to length 4 (5), nested sequences, all pairs of dicts over 3 keys x 5 (8) values, a 59-value cross-type pool, deep chains, and real-size pairs that cross the 2,000,000-point route limit; second pass on a build with the route limit scaled to 4. Oracle: nil diff <=> starlark.Equal; Old()/New() are the arguments in order; replaying the edits rebuilds old and new (recursively through nested diffs); mapping diffs have an edit exactly for added/removed/changed keys.",
+    "All ordered pairs of int sequences over {0,1,2} of length <=4 (5) as lists/tuples/mixed, binary lists to length 6 (8), strings and bytes over {a,b,c} to length 4 (5), nested sequences, all pairs of dicts over 3 keys x 5 (8) values, a cross-type pool incl. numerically equal int/float pairs, deep chains, and real-size pairs that cross the 2,000,000-point route limit; second pass on a build with the route limit scaled to 4. Oracle: nil diff <=> starlark.Equal; Old()/New() are the arguments in order; replaying the edits rebuilds old and new (recursively through nested diffs); mapping diffs have an edit exactly for added/removed/changed keys.",
     "Trusts the replay oracle and starlark.Equal. The scaled pass differs from /repo only in defaultRouteSize (vtool -const). Third pass (c08 harness, -as C16): after every single edit of every generated program the rebuild reason must name exactly the environment parts that differ (the property's last clause), including programs with self-referential data.", "DESIGN.md section 5 C16")
 
 HIST_NOTE = "Trusts the reference model (what each target's latest successful execution consumed) and the project shape's input map; every build is a fresh dawn.Load + Run through the public API on a real directory (tmpfs); intra-build thread schedule is the Go runtime's (schedules are C04/C05/C09's); execution identifiers in records are alpha-renamed for state de-duplication because dawn only compares them for equality."
@@ -82,7 +82,7 @@ add("C08", "enum", "bounded-exhaustive enumeration of BUILD-file programs from a
     "A dead worker (Go's stack overflow is fatal) is attributed to the program it was loading. Equality of environments with cyclic data is decided through their (deterministic) encodings.", "DESIGN.md section 5 C08")
 
 add("C10", "enum", "bounded-exhaustive enumeration of requirement universes x root sets through the real resolver (fake in-package dialer), reachability+max reference",
-    "All universes of 2 projects x 2 versions + 1 (quick; plus split-repository and two-major families) / 3x2, 2x3 and majors families (thorough, time-bounded) in which every (project, version) requires at most one version of every other project, x every root set with at most one version per project: BuildList on a cold cache, again on the same resolver, with a new resolver on the warm cache, with root names renamed and with declaration/tag order reversed must all equal the reference (breadth-first reachability over requirement edges, semver maximum per path); the resolver must download only reachable nodes.",
+    "All universes of 2 projects x 2 versions + 1 (quick; plus split-repository and two-major families) / 3x2, 2x3 and majors families (thorough, time-bounded) in which every (project, version) requires at most one version of every other project, x every root set with at most one version per project: BuildList on a cold cache, again on the same resolver, with a new resolver on the warm cache, with root names renamed and with declaration/tag order reversed must all equal the reference (breadth-first reachability over requirement edges, semver maximum per path); the resolver must download only reachable nodes. Further families: fetches interrupted after k files (child processes really die; parked-download interleavings), duplicate root names, and projects in sub-directories of one repository with pseudo-versions.",
     "Trusts the reference and the fake repository (dawn.toml files materialised in a tmpfs cache through the package's own Dialer seam). The third-party mvs library's goroutines run free; every universe is resolved five times and all answers must agree.", "DESIGN.md section 5 C10")
 add("C11", "enum", "bounded-exhaustive enumeration of universes x root sets x operation sequences (depth 2/3) as a memoised state graph, re-resolved against the reference",
     "Over 12.6k universes (quick) in 9 families x root sets x {Tidy, UpgradeAll, Get by path/latest/upgrade/patch/exact/range prefix/>/>=/</<=/branch/revision/major} x all sequences of length <=2 (3 thorough): Tidy keeps the build list; an upgrade puts the resolved version in the build list and lowers nothing; a downgrade leaves the project at or below the request; surviving names are unchanged and new ones unique; repeating an operation on its own result changes nothing. Every operation runs under a 10 s hang guard in worker processes.",
